@@ -70,7 +70,7 @@ def run(prop, tier, replay):
     nchunks, per = (8, 1500) if not thorough else (16, 12000)
     nev2, bads, samples = record_and_validate(ck, vh, ["run", "record"], "RunLoopTrace", "RunLoopTrace.cfg", "run.ndjson", nchunks, per)
     for b in bads:
-        if b["ev"]["k"] == "pair":
+        if b["ev"]["k"] in ("pair", "textpair"):
             ck.violation("RunUntil chunk %d line %d: %s: %s" % (b["chunk"], b["line"], b["why"], json.dumps(b["ev"])[:500]), b)
     for e in samples:
         if e["k"] == "pair" and len(ck.cov["samples"]) < 6:
